@@ -25,7 +25,7 @@ WHERES = ["(o | x | - | ~ | < | >)", "o", "(o | x)", "-", "(- | ~ | <)", "P0-4"]
 SECTION_TITLES = ["Alpha", "~ Someday", "} brace", "Zed", "alpha | beta", "Beta work", "| pipe first", "Mid-section"]
 
 
-def gen_c09_page(rng):
+def gen_c09_page(rng, refs=False):
     """Pages whose notes share tags from small pools, so that group keys collide, nest and prefix each other."""
     lines = ["# Title of page %s" % rng.choice(["#pa", "", "@pc", "+pp #pa"]), ""]
 
@@ -55,6 +55,9 @@ def gen_c09_page(rng):
                 ws.append("[[" + rng.choice(["l1", "l2"]) + "]]")
             elif r < 0.78:
                 ws.append("due::2024-0%d-01" % rng.randint(1, 9))
+            elif refs and r < 0.86:
+                # the NAME of a tag the note may inherit, inside a link or a quoted string: not a tag of the note
+                ws.append(rng.choice(["[#pa]", "[@pc]", "[#sa]", "[@work]", "[#a]", "'%bob'", '"+p1"', "[#pa],", "([@work])"]))
             else:
                 ws.append(rng.choice(["word", "x", "P5", "end.", "a-b"]))
         out = ["%s%s %s" % (kind, pr, " ".join(ws))]
